@@ -340,20 +340,29 @@ def generate_curves_pst_file(
 ):
     """Generate control file for calibration against master curves"""
     # See Example 11.3 in pestman and Preface of addendum
-    parameterization = parameters['specific_yield']['type']
-    if parameterization not in ('peatclsm', 'spline'):
-        raise ValueError(
-            'Unrecognized parameterization "{}"'.format(parameterization)
-        )
-    if parameterization == 'spline':
+    # Each section of the parameter file has its own type, as in
+    # the template file
+    sy_type = parameters['specific_yield']['type']
+    T_type = parameters['transmissivity']['type']
+    for parameterization in (sy_type, T_type):
+        if parameterization not in ('peatclsm', 'spline'):
+            raise ValueError(
+                'Unrecognized parameterization "{}"'.format(parameterization)
+            )
+    if sy_type == 'spline':
         n_Sy = len(parameters['specific_yield']['sy_knots'])
-        n_T = len(parameters['transmissivity']['K_knots_km_d'])
-        npar = n_Sy + n_T + 1  # For minimum transmissivity
-        npargp = 3  # Three parameter groups
+        npar = n_Sy
+        npargp = 1  # One parameter group
     else:
-        assert parameterization == 'peatclsm'
-        npar = 6
-        npargp = 6  # A parameter group for each parameter
+        npar = 4
+        npargp = 4  # A parameter group for each parameter
+    if T_type == 'spline':
+        n_T = len(parameters['transmissivity']['K_knots_km_d'])
+        npar += n_T + 1  # For minimum transmissivity
+        npargp += 2  # Two parameter groups
+    else:
+        npar += 2
+        npargp += 2  # A parameter group for each parameter
     cursor = connection.cursor()
     cursor.execute(
         """
@@ -395,20 +404,42 @@ def generate_curves_pst_file(
         '   30  0.01     4     3  0.01     3',
         '    1     1     1',
     ]
-    if parameterization == 'spline':
+    lines += ['* parameter groups']
+    if sy_type == 'spline':
+        lines += ['sy_knot      relative 0.01  0.0  switch  2.0 parabolic']
+    else:
         lines += [
-            '* parameter groups',
-            'sy_knot      relative 0.01  0.0  switch  2.0 parabolic',
+            'sd           relative 0.01  0.0  switch  2.0 parabolic',
+            'theta_s      relative 0.01  0.0  switch  2.0 parabolic',
+            'b            relative 0.01  0.0  switch  2.0 parabolic',
+            'psi_s        relative 0.01  0.0  switch  2.0 parabolic',
+        ]
+    if T_type == 'spline':
+        lines += [
             'k_knot       relative 0.01  0.0  switch  2.0 parabolic',
             'T_min        relative 0.01  0.0  switch  2.0 parabolic',
-            '* parameter data',
         ]
+    else:
+        lines += [
+            'Ksmacz0      relative 0.01  0.0  switch  2.0 parabolic',
+            'alpha        relative 0.01  0.0  switch  2.0 parabolic',
+        ]
+    lines += ['* parameter data']
+    if sy_type == 'spline':
         lines += [
             'sy_knot_{}  none relative  NaN  0.01     1       sy_knot  1.0  0.0  1'.format(
                 i + 1
             )
             for i in range(n_Sy)
         ]
+    else:
+        lines += [
+            'sd          none relative   NaN  0.0      2.0        sd         1.0  0.0  1',
+            'theta_s     none relative   NaN  0.01     1          theta_s    1.0  0.0  1',
+            'b           none relative   NaN  0.01     20.0       b          1.0  0.0  1',
+            'psi_s       none relative   NaN  -1.0     -0.01      psi_s      1.0  0.0  1',
+        ]
+    if T_type == 'spline':
         lines += [
             'k_knot_{}   log  factor    NaN  1.0e-04  1.0e+5  k_knot   1.0  0.0  1'.format(
                 i + 1
@@ -420,20 +451,6 @@ def generate_curves_pst_file(
         ]
     else:
         lines += [
-            '* parameter groups',
-            'sd           relative 0.01  0.0  switch  2.0 parabolic',
-            'theta_s      relative 0.01  0.0  switch  2.0 parabolic',
-            'b            relative 0.01  0.0  switch  2.0 parabolic',
-            'psi_s        relative 0.01  0.0  switch  2.0 parabolic',
-            'Ksmacz0      relative 0.01  0.0  switch  2.0 parabolic',
-            'alpha        relative 0.01  0.0  switch  2.0 parabolic',
-        ]
-        lines += [
-            '* parameter data',
-            'sd          none relative   NaN  0.0      2.0        sd         1.0  0.0  1',
-            'theta_s     none relative   NaN  0.01     1          theta_s    1.0  0.0  1',
-            'b           none relative   NaN  0.01     20.0       b          1.0  0.0  1',
-            'psi_s       none relative   NaN  -1.0     -0.01      psi_s      1.0  0.0  1',
             'Ksmacz0     log  factor     NaN  1.0e-04  1.0e+5  Ksmacz0    1.0  0.0  1',
             'alpha       none relative   NaN  1        20.0       alpha      1.0  0.0  1',
         ]
